@@ -1,6 +1,7 @@
 import ZwVerif.Model.Dwarf
 import ZwVerif.Model.Atval
 import ZwVerif.Model.Symbol
+import ZwVerif.Model.Loc
 import Driver.ZwDrv
 /-! Line protocol for the DWARF forest model.
     `F <tokens>` loads a forest:  U off version  D off tag hc nattr (name form ref|-)* nchild <children> …
